@@ -200,3 +200,30 @@ func (nd *node) truncate(size int64) {
 
 	nd.data = nd.data[:size]
 }
+
+// notFound returns the error of a path that is not in the index :
+// not a directory when one of its parents is a file, no such file or directory otherwise.
+func (vfs *OrefaFS) notFound(absPath string) error {
+	vfs.mu.RLock()
+	defer vfs.mu.RUnlock()
+
+	return vfs.notFoundLocked(absPath)
+}
+
+// notFoundLocked is notFound for callers that hold the lock of the index.
+func (vfs *OrefaFS) notFoundLocked(absPath string) error {
+	for dirName := absPath; dirName != ""; {
+		dirName, _ = avfs.SplitAbs(vfs, dirName)
+
+		nd, ok := vfs.nodes[dirName]
+		if ok {
+			if !nd.mode.IsDir() {
+				return vfs.err.NotADirectory
+			}
+
+			break
+		}
+	}
+
+	return vfs.err.NoSuchFile
+}
